@@ -173,6 +173,72 @@ def run(ck):
                     if len(g.calls) != want:
                         ck.violation('number of draws consumed by one rounding is wrong',
                                      {'ctx': dd, 'operand': op, 'calls': g.calls, 'expected': want})
+    # ---------------------------------------------------------------- arithmetic through the engines under stochastic contexts
+    # (round_params must widen the engine precision by the k random bits, else the sticky digit is mistaken for a tie)
+    from fpy2 import ops as fops
+    from fractions import Fraction as Fr
+    OPC = {'add': 0, 'mul': 2, 'div': 3}
+
+    def e_obs(r):
+        if isinstance(r, BaseException):
+            from ..numenc import e_err
+            return e_err(r)
+        from ..numenc import e_flags
+        return [0] + e_fl(r) + e_flags(r._real._flags)
+    opvals = [('fin', s, e, c) for s in (False, True) for e in (-6, -3) for c in (1, 3, 5, 7, 11, 13, 21, 37)]
+    for d in ctxs:
+        if d['kind'] in ('mpbfixed', 'smfixed') and not thorough:
+            continue
+        for rm in (RM if thorough else ('RNE', 'RNA', 'RTZ', 'RTO')):
+            dd = dict(d, rm=rm)
+            g = Scripted()
+            try:
+                ctx = mk_ctx(dd, rng=g)
+            except Exception:  # noqa
+                continue
+            for name, code in OPC.items():
+                for a in opvals[::2]:
+                    for b in opvals[1::3]:
+                        fa = Float(s=a[1], exp=a[2], c=a[3])
+                        fb = Float(s=b[1], exp=b[2], c=b[3])
+                        for rb in range(2 ** d['k']):
+                            g.value = rb
+                            g.calls = []
+                            r = attempt(lambda: getattr(fops, name)(fa, fb, ctx=ctx))
+                            add([2, code] + e_ctx(dd) + [2] + e_fl(a) + e_fl(b) + [rb] + e_obs(r), 'ops(stochastic):' + name,
+                                f'{name}({a},{b}) under {dd} rb={rb}', ('os', name, str(sorted(dd.items())), a, b, rb))
+    # ---------------------------------------------------------------- derived contexts keep their generator
+    for d in ctxs[:8]:
+        g = Scripted()
+        try:
+            base = mk_ctx(dict(d, rm='RNE'), rng=g)
+            derived = [('with_params(rm)', base.with_params(rm=mk_ctx(dict(d, rm='RTZ')).rm), dict(d, rm='RTZ'))]
+        except Exception as e:  # noqa
+            ck.count('with_params-unsupported')
+            continue
+        if d['kind'] == 'efloat':
+            # the IEEE subclass has its own with_params
+            import fpy2 as _fp
+            from fpy2.number import RM as _FRM
+            try:
+                ib = _fp.IEEEContext(d['es'], d['nbits'], _FRM.RNE, num_randbits=d['k'], rng=g)
+                derived.append(('IEEEContext.with_params(rm)', ib.with_params(rm=_FRM.RTZ), dict(d, rm='RTZ')))
+                derived.append(('IEEEContext.with_params(es,nbits)', ib.with_params(es=d['es'], nbits=d['nbits'] + 1),
+                                dict(d, nbits=d['nbits'] + 1, rm='RNE')))
+            except Exception:  # noqa
+                ck.count('with_params-unsupported')
+        for label, ctx, dd in derived:
+            for op in [('fin', False, -6, c) for c in (1, 5, 21, 43, 85, 171)]:
+                x = Float(s=op[1], exp=op[2], c=op[3])
+                for rb in range(2 ** d['k']):
+                    g.value = rb
+                    g.calls = []
+                    r = attempt(lambda: ctx.round(x))
+                    add([1] + e_ctx(dd) + e_fl(x) + [0] + [rb] + e_float_result(r), 'ctx(derived by with_params):' + d['kind'],
+                        f'{dd} via {label} x={op} rb={rb}', ('cd', str(sorted(dd.items())), op, rb))
+                    if len(g.calls) != 1:
+                        ck.violation('a context derived with with_params does not draw from the generator it was given',
+                                     {'ctx': dd, 'derivation': label, 'operand': op, 'calls': g.calls})
     ck.rule = ('every draw rb < 2^k for every operand c*2^e (c < 48/130) and every context shape/mode, k in %s and k=None (all bits); '
                'non-trivial = distinct (context, operand, draw) with an unrepresentable operand' % ks)
     ck.exhaustive = True
